@@ -1,7 +1,17 @@
 from yowsup.layers import YowLayerInterface
+import logging
+
+logger = logging.getLogger(__name__)
+
+
 class YowNetworkLayerInterface(YowLayerInterface):
     def connect(self):
-        self._layer.createConnection()
+        # as for EVENT_STATE_CONNECT: one connection at a time. Opening another one over a connection that is still up
+        # (or has not been announced as down yet) leaves two readers feeding the same layers
+        if not self._layer.getStatus():
+            self._layer.createConnection()
+        else:
+            logger.warning("connect() while already connected")
 
     def disconnect(self):
         self._layer.destroyConnection()
